@@ -61,9 +61,9 @@ PROPS["C02"] = {
 }
 
 PROPS["C08"] = {
-    "tasks": lambda tier: [V(SC + ".__lt__#ordering"), ("lemma_c01_compose", {})],
+    "tasks": lambda tier: [V(SC + ".__lt__#ordering"), ("lemma_c01_compose", {}), V("barril.units:value-objects#equality"), V(QM + ":Quantity#value-semantics"), V("barril.basic.fraction._fraction_value:FractionValue#amount")] + [("verify", {"fq": "barril.basic.fraction._fraction:Fraction#rational-arithmetic", "part": i, "nparts": 6}) for i in range(6)] + [("verify", {"fq": "barril.units._fraction_scalar:FractionScalar#like-a-scalar", "part": i, "nparts": 7}) for i in range(7)],
     "level": "proof",
-    "level_text": "Ordering: Scalar <, <=, >, >= evaluated through Python's rich-comparison dispatch on the real __lt__/__le__/__gt__/__ge__ bodies are proved equal to the same operator on value(a) and conv(unit(b)->unit(a))(value(b)) for arbitrary registered units of one quantity type, TypeError for different quantity types; with the C01 monotonicity lemma this is the order of physical amounts. Equality totality/symmetry and FractionScalar ordering are not yet under contract.",
+    "level_text": "Ordering: Scalar <, <=, >, >= evaluated through Python's rich-comparison dispatch on the real __lt__/__le__/__gt__/__ge__ bodies are proved equal to the same operator on value(a) and conv(unit(b)->unit(a))(value(b)) for arbitrary registered units of one quantity type, TypeError for different quantity types; with the C01 monotonicity lemma this is the order of physical amounts. FractionScalar: the same for one unit (different units by composition with the GetValue contract), TypeError across quantity types. Equality: for Quantity, Scalar, Array (unbounded length), FixedArray, Fraction, FractionValue - x == y, y == x, x != y evaluated through Python's == dispatch (subclass-first rule included) never raise against each other or against None / int / str / tuple, are symmetric and reflexive, mean 'same class, same value(s), same quantity (and dimension)', and Quantity's hash is congruent with ==. Curve, UnitSystem and FractionScalar equality are replayed natively (probe equality) but not under contract.",
     "level_note": "floats are reals; WF/QI assumed for inputs",
 }
 
@@ -194,4 +194,16 @@ PROPS["C06"] = {
     "level_note": "symbols with two or more '/' are written both for a/(b.c) and a/(b/c) in the table and are not read (ambiguous); affine units enter through their slope; the equivalence with 'a Scalar in the named unit equals the product/quotient of Scalars in the component units' goes through C04's magnitude lemma and is replayed natively by probe c06_row; ground arithmetic with Python Fractions (no solver)",
     "trusted": ["Python fractions.Fraction (exact rational arithmetic)", "ast.parse reads the literals CPython runs (A4); closures cross-checked by executing their real AST"],
     "technique": "contract-based deductive verification: per-row ground obligations of the table function's quantified postcondition, generated from the real AST, decided in exact rational arithmetic",
+}
+
+FRAC = "barril.basic.fraction._fraction:Fraction"
+FVAL = "barril.basic.fraction._fraction_value:FractionValue"
+FSC = "barril.units._fraction_scalar:FractionScalar"
+PROPS["C18"] = {
+    "tasks": lambda tier: VP(FRAC + "#rational-arithmetic", 6) + [V(FVAL + "#amount")] + VP(FRAC + ".__init__", 5) + VP(FSC + "#like-a-scalar", 7)
+    + [("bounded_native", {"probe": "c18_bounded", "props": ["C18"], "bound": "numbers -50..50 in steps of 0.25 with fractions a/d, d in {2,3,4,8,16}; CreateFromFloat on k/64 for |k| <= 640 and on decimals with 3 digits in (-10, 10) (8971 evaluations)", "what": "str -> CreateFromString round trip; CreateFromFloat preserves the amount"})],
+    "level": "proof",
+    "level_text": "Proved (fractions.Fraction assumed exact, A11): Fraction with symbolic integer numerators/denominators - +, -, *, /, unary -, abs, inv, copy, float, ==, !=, <, <=, >, >= between Fractions and with integers agree with exact rational arithmetic; == with None/str/tuple is False and never raises. Fraction.__init__ on real numbers: the scaling loop is verified with the loop invariant 'a/b constant, b only grows, nothing changes unless the loop is entered' (init / preservation / exit obligations), giving |stored value - a/b| <= SMALL/|b| and exactness for integers. FractionValue: float() = number + numerator/denominator; <, <=, >, >= are the order of those amounts; == is equality of number and fraction; copy is an equal, independent copy. FractionScalar: GetValue(unit) has float(result) within SMALL of conv(float(value)) for scale-only conversions (the affine case is a recorded known finding); GetValue() returns the stored value; <, <=, >, >= in one unit are the order of the amounts and raise TypeError across quantity types (different units: by composition of the two contracts, not re-proved); CheckValidity behaves exactly as Quantity.CheckValue(float(value)) (same cases, same exception attributes); receivers are never modified. BOUNDED (not proved, reported apart): str/CreateFromString round trip and CreateFromFloat by exhaustive native enumeration inside the stated grid - regular expressions, locale and str(float) digit counting have no usable theory in the installed solvers.",
+    "level_note": "formatting/parsing and CreateFromFloat are a bounded stand-in only (grid stated in the evidence), never counted as proved; Fraction ** and % not under contract; floats are reals; partial correctness (termination of the scaling loop not proved, A14)",
+    "trusted": STD_TRUSTED + ["fractions.Fraction is an exact rational (A11), modelled in pyvc/rational.py"],
 }
